@@ -46,6 +46,14 @@ def targets(mpmath):
         if hasattr(f, "__code__"):
             t[name] = f.__code__
     t["LU_decomp"] = cls.LU_decomp.__code__
+    # every plain function of the numerical kernels (counted on the normal run; a few of those that were
+    # entered are then chosen as crash points)
+    import types
+    for modname in ("gammazeta", "libhyper", "libelefun", "libmpc", "libmpi"):
+        mod = getattr(lm, modname)
+        for name, f in vars(mod).items():
+            if isinstance(f, types.FunctionType) and f.__module__ == mod.__name__ and not name.startswith("__"):
+                t.setdefault(name, f.__code__)
     return t
 
 
@@ -58,6 +66,65 @@ def nested_codes(code):
     return out
 
 
+import ast, inspect
+
+ALT_NUMS = ["1e-5", "700", "-3", "mpf('1e-20')", "(2+3j)", "0", "mpf(7)/3", "60"]
+
+
+def variants(src, ns, rng, maxn):
+    """mutated copies of a documentation statement: boolean keyword parameters of the called function
+    flipped on, and one numeric literal argument replaced (small / huge / negative / complex / zero)"""
+    try:
+        tree = ast.parse(src, mode="eval")
+    except SyntaxError:
+        return []
+    calls = [n for n in ast.walk(tree) if isinstance(n, ast.Call) and isinstance(n.func, ast.Name) and n.func.id in ns]
+    if not calls:
+        return []
+    out = []
+    call = calls[0]
+    fn = ns.get(call.func.id)
+    flips = []
+    try:
+        sig = inspect.signature(fn)
+        for pname, prm in sig.parameters.items():
+            if prm.default is False and pname not in [k.arg for k in call.keywords]:
+                flips.append(pname)
+    except (TypeError, ValueError):
+        pass
+    if fn is not None and getattr(fn, "__name__", "") in ("gammainc", "f_wrapped") or call.func.id == "gammainc":
+        flips.append("regularized")
+    numidx = [i for i, a in enumerate(call.args) if isinstance(a, ast.Constant) and isinstance(a.value, (int, float)) and not isinstance(a.value, bool)]
+    for _ in range(maxn):
+        t2 = ast.parse(src, mode="eval")
+        c2 = [n for n in ast.walk(t2) if isinstance(n, ast.Call) and isinstance(n.func, ast.Name) and n.func.id in ns][0]
+        did = False
+        if flips and rng.random() < 0.7:
+            kw = rng.choice(flips)
+            if kw not in [k.arg for k in c2.keywords]:
+                c2.keywords.append(ast.keyword(arg=kw, value=ast.Constant(True))); did = True
+        if numidx and rng.random() < 0.7:
+            i = rng.choice(numidx)
+            c2.args[i] = ast.parse(rng.choice(ALT_NUMS), mode="eval").body; did = True
+        if did:
+            try:
+                out.append(ast.unparse(ast.fix_missing_locations(t2)))
+            except Exception:
+                pass
+    return list(dict.fromkeys(out))
+
+
+import signal
+
+
+class Abandoned(BaseException):
+    """raised by the SIGALRM safety net; calls ended this way are not judged"""
+
+
+def _on_alarm(signum, frame):
+    raise Abandoned()
+
+
 class Sweep:
     def __init__(self, mpmath, seed):
         self.m = mpmath
@@ -65,6 +132,7 @@ class Sweep:
         self.cl = self.mp.clone()
         self.rec = precrec.PrecRecorder({"mp": self.mp, "cl": self.cl, "iv": mpmath.iv})
         self.inj = precrec.Injector(targets(mpmath))
+        self.inj.budget = 120000
         self.rng = random.Random(seed)
         self.traces = []
         self.meta = {}       # (trace index, event index) -> replay info
@@ -73,6 +141,9 @@ class Sweep:
         self.fired = 0
         self.exits = {"return": 0, "raise": 0}
         self._devnull = open(os.devnull, "w")
+        self.nvariants = 2
+        self.alarm_s = 4
+        signal.signal(signal.SIGALRM, _on_alarm)
 
     def close(self):
         self.inj.close()
@@ -94,24 +165,32 @@ class Sweep:
         self.calls += 1
         old_stdout = sys.stdout
         sys.stdout = self._devnull
+        signal.setitimer(signal.ITIMER_REAL, self.alarm_s, 0.5)      # repeats, in case a bare except swallows it
         try:
             if mode == "eval":
                 eval(code, ns)
             else:
                 exec(code, ns)
+        except Abandoned:
+            kind, exc = "abandon", "wall-clock safety net"
         except RecursionError:
             kind, exc = "raise", "RecursionError"
         except BaseException as e:
             if isinstance(e, (KeyboardInterrupt, SystemExit)):
                 raise
+            if isinstance(e, Abandoned):
+                raise
             kind, exc = "raise", type(e).__name__
         else:
             kind, exc = "return", ""
         finally:
+            signal.setitimer(signal.ITIMER_REAL, 0)
             sys.stdout = old_stdout
         self.inj.arm = None
         idx = rec.log(kind, f=fname, c=ctxname, exc=exc)
-        self.exits[kind] += 1
+        self.exits[kind] = self.exits.get(kind, 0) + 1
+        if kind == "abandon":
+            self.rec.ctx[ctxname].prec = info["P"]
         self.meta[(len(self.traces), idx)] = dict(info, exit=kind, exc=exc)
         return dict(self.inj.counts), self.inj.fired
 
@@ -134,6 +213,21 @@ class Sweep:
             counts, _ = self._call(code, mode, ns, ctxname, fname, info, None)
             if not inject:
                 continue
+            # argument / keyword variants of the documented call (run normally and with one crash point each)
+            for vsrc in variants(src, ns, self.rng, self.nvariants):
+                try:
+                    vcode, vmode = self._compile(vsrc)
+                except SyntaxError:
+                    continue
+                ctx.prec = P
+                vinfo = dict(info, src=vsrc, variant=True)
+                vcounts, _ = self._call(vcode, vmode, ns, ctxname, fname + "~v", vinfo, None)
+                vl = [l for l, n in vcounts.items() if n > 0]
+                if vl:
+                    label = self.rng.choice(vl)
+                    ctx.prec = P
+                    self._call(vcode, vmode, ns, ctxname, fname + "~v", dict(vinfo, inject=[label, 1]), (label, 1))
+                    self.injected_runs += 1
             labels = [l for l, n in counts.items() if n > 0]
             self.rng.shuffle(labels)
             for label in labels[:inject]:
@@ -202,7 +296,7 @@ def select_blocks(chk, mpmath, frac):
         if keep:
             out.append((name, keep))
     if frac < 1:
-        always = {"invertlaplace", "quad", "odefun", "findroot", "lambertw", "nsum", "workprec", "extraprec", "autoprec", "memoize", "lu_solve", "zetazero"}
+        always = {"gammainc", "expint", "hyp2f1", "besselj", "zeta", "polylog", "invertlaplace", "quad", "odefun", "findroot", "lambertw", "nsum", "workprec", "extraprec", "autoprec", "memoize", "lu_solve", "zetazero"}
         sel = [b for b in out if b[0] in always]
         rest = [b for b in out if b[0] not in always]
         rng.shuffle(rest)
